@@ -22,11 +22,13 @@ ALPHABET = [
     # primary test sets joined to another name by each operator (single dot = immediately followed by)
     "only=leaves.quicktest", "only=minimal.quicktest", "no=minimal.quicktest", "only=all.quicktest", "only=normal.nongui.quicktest",
     "only=leaves..tutorial1", "only=leaves.quicktest,normal.nongui.quicktest",
+    # malformed keys: a non-word character before the '='
+    "some-key=value", "only-vm1=Fedora", "--only=minimal", "vm1.image_name=foo", " aaa=bbb", "get state=install",
 ]
 QUICK_ALPHABET = ["only=tutorial1", "only=normal", "only=tutorial2..names", "only=names,files", "no=files",
                   "only_vm1=CentOS", "only_vm1=Linux", "only_vm1=", "no_vm2=Win7", "vms=vm1", "nets=net1,net2", "only_nets=net1", "file_contents=x,y",
                   "default_only_vm1=Fedora", "default_only=leaves", "foo", "vms=vm9", "only_vm4=X", "only_vm1x=CentOS",
-                  "only=leaves.quicktest", "no=minimal.quicktest", "only=all.quicktest"]
+                  "only=leaves.quicktest", "no=minimal.quicktest", "only=all.quicktest", "only-vm1=Fedora", "--only=minimal", "vm1.image_name=foo"]
 
 
 def match_restriction(name: str, restr: str) -> bool:
